@@ -15,6 +15,8 @@ CHECKS["C04"] = dict(cat="model_checking", tech="stateless model checking: exhau
 CHECKS["C05"] = dict(cat="model_checking", tech="stateless model checking: exhaustive deviation-bounded schedule enumeration; removal placed at every point of the event stream", text="Programs with a removing call (external thread and re-entrant) on the real BaseObserver; every interleaving within the bound is checked: no callback of a removed handler starts after the removing call returned, none is in progress at the return (unless re-entrant), the unscheduled emitter thread is dead.", note=_obs, ref="3 C05")
 CHECKS["C06"] = dict(cat="model_checking", tech="stateless model checking: exhaustive deviation-bounded schedule enumeration with deadlock detection (no enabled thread, no timer)", text="All programs of <=2 application threads x <=2 (quick) / 3 (thorough) calls from {start, schedule, unschedule, unschedule_all, stop, join} plus re-entrant calls, scripted emitters; scheduler verdicts deadlock/horizon and the set of live library threads after stop()+join().", note=_obs + "; part (a) of DESIGN 3 C06 only so far (scripted emitters)", ref="3 C06")
 CHECKS["C13"] = dict(cat="model_checking", tech="explicit-state BFS to closure over API call sequences on the real BaseObserver with fault-injecting emitter class, compared step by step with a reference map", text="BFS over all call sequences of the alphabet (incl. schedule failing at emitter construction/start) until no new canonical state appears; after every call emitters, liveness and marker routing are compared with a dict-of-sets reference.", note="trusted: reference map model; alphabet restricted to well-formed calls; closure reported per run", ref="3 C13")
+CHECKS["C14"] = dict(cat="exploration", tech="exhaustive enumeration of all directory trees <=4/5 entries over names colliding with the rewritten prefix, real generator functions on a real scratch tree, independent scandir reference", text="Every tree over the names {a,b} (so inner names repeat the moved directory's own name), six spellings (relative / prefixed relative / absolute x str/bytes), both generator functions, compared event by event with an independent recursion: one event per descendant, right paths, flavour, parent-before-child, synthetic flag, path type.", note="exhaustive within the stated universe; larger names/trees not covered; the same prefix rewrite in the inotify watch map is covered by the fsops checks, not here", ref="3 C14")
+CHECKS["C15"] = dict(cat="exploration", tech="exhaustive enumeration of event classes x paths x pattern/regex lists x flags against an independent pathlib/re reference evaluator", text="Full product of 11 event classes x path universe (str/bytes, mixed case, one directory level) x include/exclude lists of <=2 patterns (globs and regexes; thorough adds '^$') x case_sensitive x ignore_directories for the three handler classes, plus filter_paths/match_any_paths over short path lists; every case compared with a reference written from the statement.", note="exhaustive within the stated universe; reference evaluator uses pathlib/re directly", ref="3 C15")
 NA = {}
 def main():
     checks = []
